@@ -236,7 +236,7 @@ Fixpoint held_of (owners : list Z) (j : nat) (t : nat) : list nat :=
 Definition decode_threads (k : nat) (owners : list Z) (ths : list (list (list Z))) : list (list op * list nat) :=
   map (fun p => (decode_ops (snd p), held_of owners (S k) (fst p))) (combine (seq 0 (List.length ths)) ths).
 
-Definition run_case (cfg : list Z) (ths : list (list (list Z))) (sched : list nat) (fuel : nat)
+Definition fl_run_case (cfg : list Z) (ths : list (list (list Z))) (sched : list nat) (fuel : nat)
   : list (nat * ev) * bool :=
   let lfuel := Z.to_nat (nth 1 cfg 100) in
   let k := Z.to_nat (nth 3 cfg 0) in
